@@ -24,7 +24,7 @@ def setup(symbolic):
 
 
 def bounds(tier):
-    return {'stream': 'skeleton of 18 records (an orphan END first, a never-ending START last): per thread an open() window with one lookup, a read() window, a thread-name '
+    return {'stream': 'skeleton of 20 records (an orphan END first, an exec that renames one process in mid-stream, a never-ending START last): per thread an open() window with one lookup, a read() window, a thread-name '
                       'string and a Mach trap; plus a sampler window before and after an image announcement',
             'filters': 'filter_tid None or free 64-bit; filter_process None / name / pid text / unknown; class list 0..2 entries '
                        'free 8-bit; BSD-subclass list 0..1 entries (0x40c or any other 0x04xx); class values sharded over {1,3,4,7,other}',
@@ -34,8 +34,10 @@ def bounds(tier):
 def structures(tier):
     sts = []
     for tidf in (False, True):
-        for proc in (None, 'procA', str(P2), 'nosuch'):
+        for proc in (None, 'procA', str(P2), 'nosuch', 'procB', 'execd'):
             sts.append({'kind': 'select', 'tid': tidf, 'proc': proc, 'nc': 0, 'ns': 0})
+    sts.append({'kind': 'select', 'tid': False, 'proc': 'procB', 'nc': 1, 'ns': 0, 'c': [4]})
+    sts.append({'kind': 'select', 'tid': False, 'proc': 'execd', 'nc': 1, 'ns': 0, 'c': [1]})
     shards = [1, 3, 4, 7, None]
     for c0 in shards:
         sts.append({'kind': 'select', 'tid': False, 'proc': None, 'nc': 1, 'ns': 0, 'c': [c0]})
@@ -57,6 +59,9 @@ def structures(tier):
 
 def weight(st):
     return st.get('nc', 0) * 3 + st.get('ns', 0) * 2 + 1
+
+
+_EXEC_TS = [0]
 
 
 def skeleton(ctx):
@@ -91,6 +96,10 @@ def skeleton(ctx):
         ev('VFS_LOOKUP', 3, tid, data=K.to_le(ctx.int('vn' + tag), 8) + path + bytes(21))
         ev('BSC_open', 2, tid, [0, ctx.int('fd' + tag), 0, 0])
     ev('BSC_read', 1, T1)
+    # process P2 execs: its name changes in mid-stream
+    ev('TRACE_DATA_EXEC', 0, T2, [P2, 0, 0, 0])
+    ev('TRACE_STRING_EXEC', 0, T2, data=b'execd' + bytes(27))
+    _EXEC_TS[0] = ts[0]
     ev('TRACE_STRING_THREADNAME', 3, T2, data=tname + bytes(29))
     ev('MSC_mach_vm_allocate_trap', 1, T2)
     ev('BSC_read', 2, T1, [0, ctx.int('count'), 0, 0])
@@ -172,6 +181,8 @@ def run(ctx, st):
             ok = And(ok, e.tid == ftid)
         if st['proc'] is not None:
             pid, nm = pmap[e.tid]
+            if e.tid == T2 and t.ktraces[-1].timestamp >= _EXEC_TS[0]:
+                nm = 'execd'          # the process the dump declares for the thread at that point of the stream
             ok = And(ok, st['proc'] in (str(pid), nm))
         if orig_c or orig_s:
             ok = And(ok, Or(*([(e.eventid >> 24) == c for c in orig_c] + [(e.eventid >> 16) == s for s in orig_s])))
